@@ -1173,6 +1173,11 @@ func (n *StringNode) Format(buf *bytes.Buffer, indent string, onNewLine bool) {
 		onNewLine = true
 	}
 	writeIndent(buf, indent, onNewLine)
+	if !n.TripleQuotes && strings.HasSuffix(n.Literal, "\\") && !strings.Contains(n.Literal, "''") {
+		// A single quoted string cannot end in a backslash (it would escape the closing quote),
+		// a triple quoted string can.
+		n.TripleQuotes = true
+	}
 	if n.TripleQuotes {
 		buf.WriteString("'''")
 	} else {
